@@ -243,8 +243,19 @@ pub fn arb_foca(s: &mut impl Src, sh: Shape) -> F {
         timer_token,
         members,
         probe,
-        updates_buf: Vec::new(),
-        choice_buf: Vec::new(),
+        // Scratch buffers hold arbitrary leftovers (reachable: a truncated Feed leaves
+        // unpopped candidates behind, a decode error leaves decoded updates behind);
+        // foca must clear them before every use.
+        updates_buf: {
+            let mut v = Vec::with_capacity(4);
+            v.push(arb_member(s));
+            v
+        },
+        choice_buf: {
+            let mut v = Vec::with_capacity(6);
+            v.push(arb_member(s));
+            v
+        },
         // I6 (debug-asserted by foca)
         send_buf: Vec::with_capacity(sh.pkt),
         updates,
